@@ -294,7 +294,7 @@ gen_case(vf_rng *r, long long seed, long idx, int *kind_out, side *C, side *S)
 	/* server key first: suite choices are biased by it */
 	S->key = (int)vf_below(r, 4);
 	S->usages = BR_KEYTYPE_KEYX | BR_KEYTYPE_SIGN;
-	if (vf_below(r, 100) < 35) S->usages = vf_below(r, 2) ? BR_KEYTYPE_KEYX : BR_KEYTYPE_SIGN;
+	if (vf_below(r, 100) < 28) S->usages = vf_below(r, 2) ? BR_KEYTYPE_KEYX : BR_KEYTYPE_SIGN;
 
 	/* versions */
 	C->vmin = S->vmin = 0x0301; C->vmax = S->vmax = 0x0303;
@@ -319,7 +319,7 @@ gen_case(vf_rng *r, long long seed, long idx, int *kind_out, side *C, side *S)
 		if (vf_below(r, 8) == 0) random_suites(r, S, 1 + vf_below(r, 45), S->key, 50);
 	} else if (kind == K_PAIR) {
 		long pi = q * 2 + (k - 2);
-		long pidx = (long)(((uint64_t)pi * 7919u + (uint64_t)seed * 1009u) % 17820u);
+		long pidx = (long)(((uint64_t)pi * 7919u + (uint64_t)seed * 1009u) % 5940u);
 		int a = (int)((pidx % 1980) / 44), b = (int)((pidx % 1980) % 44);
 		static const int keys3[3] = { 0, 1, 2 };
 		if (b >= a) b ++;
@@ -331,10 +331,10 @@ gen_case(vf_rng *r, long long seed, long idx, int *kind_out, side *C, side *S)
 		/* both usable with the key more often than by chance: keep usages full mostly */
 		if (vf_below(r, 100) < 70) S->usages = BR_KEYTYPE_KEYX | BR_KEYTYPE_SIGN;
 	} else {
-		int pc = kind == K_RANDOM ? 90 : 50, ps = kind == K_RANDOM ? 70 : 40;
+		int pc = kind == K_RANDOM ? 90 : 35, ps = kind == K_RANDOM ? 70 : 40;
 		if ((int)vf_below(r, 100) < pc) {
-			size_t n = vf_below(r, 100) < 70 ? 1 + vf_below(r, 6) : 1 + vf_below(r, 45);
-			random_suites(r, C, n, S->key, 60);
+			size_t n = vf_below(r, 100) < 60 ? 1 + vf_below(r, 8) : 1 + vf_below(r, 45);
+			random_suites(r, C, n, S->key, kind == K_RANDOM ? 60 : 85);
 		}
 		if ((int)vf_below(r, 100) < ps) {
 			if (vf_below(r, 2)) shuffle16(r, S->suites, S->nsuites);
@@ -368,7 +368,8 @@ gen_case(vf_rng *r, long long seed, long idx, int *kind_out, side *C, side *S)
 
 	/* client authentication */
 	if (kind == K_FLAGS ? vf_below(r, 2) : vf_below(r, 100) < 15) S->creq = 1;
-	if (kind == K_FLAGS || vf_below(r, 100) < 25) C->cert = (int)vf_below(r, 3);
+	if (kind == K_FLAGS || S->creq || vf_below(r, 100) < 20) C->cert = (int)vf_below(r, 3);
+	if (S->creq && C->cert == 0 && kind != K_FLAGS && vf_below(r, 2)) C->cert = 1 + (int)vf_below(r, 2);
 
 	/* hash and curve subsets */
 	C->hashes = S->hashes = HASHES_ALL;
@@ -400,6 +401,9 @@ gen_case(vf_rng *r, long long seed, long idx, int *kind_out, side *C, side *S)
 			if (vf_below(r, 100) < 20) S->curves = random_curves(r);
 		}
 	}
+
+	/* a client that cannot handle the curve of the server's own key is the rarer case */
+	if (S->key != 0 && vf_below(r, 100) < 75) C->curves |= (uint32_t)1 << (S->key == 3 ? 24 : 23);
 
 	/* TLS_FALLBACK_SCSV at the end of the client list (documented use) */
 	if (kind != K_SINGLE && kind != K_PAIR && vf_below(r, 100) < 8 && C->nsuites < 90) {
@@ -450,7 +454,15 @@ js_side(FILE *f, const char *name, const side *sd, int role)
 static struct {
 	int have_ske; unsigned ske_curve; int ske_hash, ske_sig;
 	unsigned sh_version;
+	int n_arec; unsigned arec[8][2];      /* alert records: direction, record version */
 } W;
+
+static void
+rec_hook(void *arg, const rm_record *r, const unsigned char *plain)
+{
+	(void)arg; (void)plain;
+	if (r->type == 21 && W.n_arec < 8) { W.arec[W.n_arec][0] = (unsigned)r->dir; W.arec[W.n_arec][1] = r->version; W.n_arec ++; }
+}
 
 static void
 on_hs(void *arg, int dir, int type, const unsigned char *body, size_t len)
@@ -532,7 +544,9 @@ js_wire(FILE *f, rm_state *rm)
 	js_hex(f, "sh", rm->last_sh, rm->last_sh_len, rm->n_sh > 0 && rm->last_sh_len > 0);
 	if (W.have_ske) fprintf(f, ",\"ske\":[%u,%d,%d]", W.ske_curve, W.ske_hash, W.ske_sig);
 	else fputs(",\"ske\":null", f);
-	fprintf(f, ",\"mon_failed\":%d", rm->failed);
+	fputs(",\"alert_records\":[", f);
+	for (i = 0; i < W.n_arec; i ++) fprintf(f, "%s[%u,%u]", i ? "," : "", W.arec[i][0], W.arec[i][1]);
+	fprintf(f, "],\"mon_failed\":%d", rm->failed);
 }
 
 /* ------------------------------------------------------------------ */
@@ -552,6 +566,7 @@ run_pair(long long seed, long idx, int kind, side *C, side *S, vf_rng *r)
 	p.c.tx_key = vf_u64(r); p.s.tx_key = vf_u64(r);
 	tm_pair_attach(&pm, &p);
 	pm.m.rm.on_hs = on_hs;
+	pm.m.rec_hook = rec_hook;
 	memset(&W, 0, sizeof W);
 	rc = tp_ep_start(&p.c, &cc);
 	rs = tp_ep_start(&p.s, &sc);
@@ -586,9 +601,10 @@ run_pair(long long seed, long idx, int kind, side *C, side *S, vf_rng *r)
 		fputs("}\n", LOG);
 	}
 	tm_verdict(&pm.m, 0, 0, 0);
-	vf_distinct("config", "%s/c%04x-%04x/s%04x-%04x/k%d.u%x/f%x.%x/h%02x.%02x/cv%x.%x/a%zu.%zu/r%d%d",
-		kind_names[kind], C->vmin, C->vmax, S->vmin, S->vmax, S->key, S->usages, (unsigned)C->flags, (unsigned)S->flags,
-		C->hashes, S->hashes, (unsigned)(C->curves >> 23), (unsigned)(S->curves >> 23), C->nalpn, S->nalpn, S->creq, C->cert);
+	vf_distinct("config", "%s/c%04x-%04x/s%04x-%04x/k%d.u%x/f%x.%x/h%d%d/cv%d%d/a%d%d/r%d%d",
+		kind_names[kind], C->vmin, C->vmax, S->vmin, S->vmax, S->key, S->usages, (unsigned)C->flags & 2, (unsigned)S->flags,
+		C->hashes != HASHES_ALL, S->hashes != HASHES_ALL, C->curves != CURVES_ALL, S->curves != CURVES_ALL,
+		C->nalpn != 0, S->nalpn != 0, S->creq, C->cert);
 	if (hs) {
 		br_ssl_session_parameters sp;
 		br_ssl_engine_get_session_parameters(p.s.eng, &sp);
@@ -622,12 +638,14 @@ ext_end(bb *x, size_t mark) { bset16(x, mark, (unsigned)(x->n - mark - 2)); }
 static void
 build_hello(vf_rng *r, const side *S, bb *h, unsigned *rec_version)
 {
-	static const unsigned vers[] = { 0x0303, 0x0303, 0x0303, 0x0303, 0x0302, 0x0301, 0x0301, 0x0304, 0x0300, 0x03FF };
+	static const unsigned vers[] = { 0x0303, 0x0303, 0x0303, 0x0303, 0x0302, 0x0301, 0x0301, 0x0304, 0x0303, 0x03FF };
 	static const unsigned unknown_suites[] = { 0x1301, 0x1302, 0x0005, 0x0004, 0x0033, 0x009E, 0xC0FF, 0x0000, 0xFFFF, 0xC011 };
 	size_t lenpos, spos, nsu, i, m;
-	unsigned cver = vers[vf_below(r, 10)];
+	unsigned cver = vf_below(r, 40) == 0 ? 0x0300 : vers[vf_below(r, 10)];
 	uint16_t used[128]; size_t nused = 0;
 	int extmode;
+	int with_fallback = vf_below(r, 100) < 15, with_reneg_scsv = vf_below(r, 100) < 30;
+	unsigned kcurve = S->key == 0 ? 23 : (S->key == 3 ? 24 : 23);
 
 	h->n = 0;
 	*rec_version = vf_below(r, 3) ? 0x0301 : (vf_below(r, 2) ? 0x0303 : 0x0300);
@@ -646,13 +664,15 @@ build_hello(vf_rng *r, const side *S, bb *h, unsigned *rec_version)
 			v = si->id;
 		} else if (c < 70) v = unknown_suites[vf_below(r, 10)];
 		else if (c < 80) v = grease(r);
-		else if (c < 84) v = 0x00FF;
-		else if (c < 88) v = 0x5600;
+		else if (c < 84) v = with_reneg_scsv ? 0x00FFu : grease(r);
+		else if (c < 88) v = with_fallback ? 0x5600u : 0x1303u;
 		else if (nused > 0) v = used[vf_below(r, (uint32_t)nused)];       /* duplicate */
 		else v = tp_suites[vf_below(r, TP_NSUITES)].id;
 		if (nused < 128) used[nused ++] = (uint16_t)v;
 		b16(h, v);
 	}
+	if (with_fallback && vf_below(r, 2)) b16(h, 0x5600);
+	if (with_reneg_scsv && vf_below(r, 2)) b16(h, 0x00FF);
 	bset16(h, spos, (unsigned)(h->n - spos - 2));
 	/* compression */
 	switch (vf_below(r, 4)) {
@@ -697,6 +717,7 @@ build_hello(vf_rng *r, const side *S, bb *h, unsigned *rec_version)
 					if (vf_below(r, 10) == 0) { unsigned g = grease(r); b16(h, g); }
 					else { b8(h, hs[vf_below(r, 11)]); b8(h, ss[vf_below(r, 8)]); }
 				}
+				if (vf_below(r, 100) < 60) { b8(h, 2); b8(h, 3); b8(h, 2); b8(h, 1); }   /* SHA-1 with ECDSA, RSA: what older versions use anyway */
 				bset16(h, lm, (unsigned)(h->n - lm - 2));
 				ext_end(h, m);
 				break;
@@ -707,6 +728,7 @@ build_hello(vf_rng *r, const side *S, bb *h, unsigned *rec_version)
 				ext_begin(h, 0x000A, &m);
 				lm = h->n; b16(h, 0);
 				for (i = 0; i < k2; i ++) b16(h, vf_below(r, 8) == 0 ? grease(r) : cs[vf_below(r, 14)]);
+				if (vf_below(r, 100) < 70) b16(h, kcurve);
 				bset16(h, lm, (unsigned)(h->n - lm - 2));
 				ext_end(h, m);
 				break;
@@ -773,13 +795,15 @@ run_scripted(long long seed, long idx, side *S, vf_rng *r)
 
 	memset(&srv, 0, sizeof srv);
 	S->creq = 0;
+	if (S->key == 3 && vf_below(r, 3)) S->key = 1;
 	/* the scripted peer has no engine: server-side hash/curve subsets stay as generated */
 	side_to_cfg(S, 1, &sc, r);
 	build_hello(r, S, &h, &rv);
 	tp_fifo_init(&c2s); tp_fifo_init(&s2c);
-	tm_init(&mon, NULL, NULL);
+	tm_init(&mon, NULL, &mon);
 	mon.check_app = 0;
 	mon.rm.on_hs = on_hs;
+	mon.rec_hook = rec_hook;
 	memset(&W, 0, sizeof W);
 	rs = tp_ep_start(&srv, &sc);
 	rec[0] = 22; rec[1] = (unsigned char)(rv >> 8); rec[2] = (unsigned char)rv;
@@ -791,9 +815,8 @@ run_scripted(long long seed, long idx, side *S, vf_rng *r)
 		unsigned st = br_ssl_engine_current_state(srv.eng);
 		size_t k;
 		if (st & BR_SSL_SENDREC) {
-			size_t before = s2c.wr;
 			k = tp_act_sendrec(&srv, &s2c, 1 + vf_below(r, 4000));
-			rm_feed(&mon.rm, 1, s2c.data + before, k);
+			rm_feed(&mon.rm, 1, s2c.data + (s2c.wr - k), k);
 			s2c.rd = s2c.wr;
 			continue;
 		}
@@ -815,8 +838,8 @@ run_scripted(long long seed, long idx, side *S, vf_rng *r)
 	fputs("}\n", LOG);
 	vf_stat("scripted_hellos", 1);
 	vf_stat(mon.rm.n_sh > 0 ? "scripted_answered_server_hello" : "scripted_refused", 1);
-	vf_distinct("config", "scripted/s%04x-%04x/k%d.u%x/f%x/h%02x/cv%x/a%zu/len%zu",
-		S->vmin, S->vmax, S->key, S->usages, (unsigned)S->flags, S->hashes, (unsigned)(S->curves >> 23), S->nalpn, h.n / 16);
+	vf_distinct("config", "scripted/s%04x-%04x/k%d.u%x/f%x/h%d/cv%d/a%d/len%zu",
+		S->vmin, S->vmax, S->key, S->usages, (unsigned)S->flags, S->hashes != HASHES_ALL, S->curves != CURVES_ALL, S->nalpn != 0, h.n / 64);
 	if (mon.rm.n_sh > 0) vf_distinct("outcome", "scripted/%04x/%04x", mon.rm.version, mon.rm.suite);
 	else vf_distinct("outcome", "scripted/fail/%d", br_ssl_engine_last_error(srv.eng));
 	rm_free(&mon.rm);
